@@ -599,10 +599,10 @@ func (w *World) loopWrites(fr *Frame, blocks []*ssa.BasicBlock) (cells []cellID,
 					addFresh(vk)
 					addFresh("MapLen")
 				case *ssa.MakeSlice:
-					addFresh(w.elemsKey(w.sortOf(t.Type().Underlying().(*types.Slice).Elem())))
+					addFresh(w.elemsKeyT(t.Type().Underlying().(*types.Slice).Elem()))
 				case *ssa.Convert:
 					if w.sortOf(t.Type()) == SSlice && w.sortOf(t.X.Type()) == SString {
-						addKey(w.elemsKey(SInt))
+						addKey(w.elemsKeyT(types.Typ[types.Uint8]))
 					}
 				case *ssa.Next:
 					if rg, ok := t.Iter.(*ssa.Range); ok {
@@ -655,7 +655,7 @@ func (w *World) addStoreTargets(addr ssa.Value, addKey func(string), addAt func(
 		addAt(w.fieldKey(deref(root.X.Type()), root.Field), root.X, false)
 	case *ssa.IndexAddr:
 		if t, ok := x.X.Type().Underlying().(*types.Slice); ok {
-			addAt(w.elemsKey(w.sortOf(t.Elem())), x.X, true)
+			addAt(w.elemsKeyT(t.Elem()), x.X, true)
 			return
 		}
 		if pt, ok := x.X.Type().Underlying().(*types.Pointer); ok {
@@ -663,7 +663,7 @@ func (w *World) addStoreTargets(addr ssa.Value, addKey func(string), addAt func(
 				// element of an array object: the object is the target (an
 				// array allocated inside the loop is fresh at every iteration,
 				// which the frame guard "allocated before the loop" covers)
-				addAt(w.elemsKey(w.sortOf(at.Elem())), x.X, false)
+				addAt(w.elemsKeyT(at.Elem()), x.X, false)
 				return
 			}
 		}
@@ -727,7 +727,7 @@ func (w *World) addAllocKeys(et types.Type, addKey func(string)) {
 			addKey(w.fieldKey(et, i))
 		}
 	case *types.Array:
-		addKey(w.elemsKey(w.sortOf(u.Elem())))
+		addKey(w.elemsKeyT(u.Elem()))
 	default:
 		addKey(w.cellKey(w.sortOf(et)))
 	}
@@ -753,9 +753,9 @@ func (w *World) addStoreKeys(addr ssa.Value, addKey func(string)) {
 	case *ssa.IndexAddr:
 		switch t := x.X.Type().Underlying().(type) {
 		case *types.Slice:
-			addKey(w.elemsKey(w.sortOf(t.Elem())))
+			addKey(w.elemsKeyT(t.Elem()))
 		case *types.Pointer:
-			addKey(w.elemsKey(w.sortOf(t.Elem().Underlying().(*types.Array).Elem())))
+			addKey(w.elemsKeyT(t.Elem().Underlying().(*types.Array).Elem()))
 		}
 	case *ssa.Global:
 		addKey(w.globalKey(x))
@@ -775,17 +775,17 @@ func (w *World) callWrites(fr *Frame, fn *ssa.Function, c *ssa.CallCommon, addKe
 					if depth == 0 && fn == fr.fn && fr.top {
 						// in-place appends are checked (obligation) to hit only arrays
 						// allocated since function entry: the loop frame keeps older ones
-						w.loopFreshOnly[w.elemsKey(w.sortOf(st.Elem()))] = true
-						addKeyQuiet(w, w.elemsKey(w.sortOf(st.Elem())))
+						w.loopFreshOnly[w.elemsKeyT(st.Elem())] = true
+						addKeyQuiet(w, w.elemsKeyT(st.Elem()))
 					} else {
-						addKey(w.elemsKey(w.sortOf(st.Elem())))
+						addKey(w.elemsKeyT(st.Elem()))
 					}
 				}
 			}
 		case "copy":
 			if len(c.Args) > 0 {
 				if st, ok := c.Args[0].Type().Underlying().(*types.Slice); ok {
-					addKey(w.elemsKey(w.sortOf(st.Elem())))
+					addKey(w.elemsKeyT(st.Elem()))
 				}
 			}
 		case "delete":
